@@ -674,6 +674,28 @@ func (p *Pair) Stall(dir int, d time.Duration) {
 	simrt.Logf("net stall conn=%d dir=%d for %v", p.ID, dir, d)
 }
 
+// Blackhole stops delivery in direction dir (data is accepted and swallowed) and resets the
+// connection after keepalive, as a dead path detected by TCP keep-alive would.
+func (p *Pair) Blackhole(dir int, keepalive time.Duration) {
+	p.n.fired("blackhole")
+	recv := p.S
+	if dir == 1 {
+		recv = p.C
+	}
+	recv.hole = true
+	simrt.Logf("net blackhole conn=%d dir=%d keepalive=%v", p.ID, dir, keepalive)
+	simrt.Go("net-keepalive", func() {
+		simrt.Sleep(keepalive)
+		p.reset("keepalive")
+	})
+}
+
+// Stalled reports whether delivery is paused in either direction or black-holed.
+func (p *Pair) Stalled() bool {
+	now := time.Now()
+	return !p.IsReset && (p.C.stallTo.After(now) || p.S.stallTo.After(now) || p.C.hole || p.S.hole)
+}
+
 // HalfClose ends direction dir only: its receiver reads EOF after draining, its sender's writes
 // fail; the opposite direction is untouched.
 func (p *Pair) HalfClose(dir int) {
